@@ -196,6 +196,10 @@ fn gen_item(d: &mut Dec, p: &GenParams, depth: usize) -> ClassItem {
     let w_nested = if depth > 0 { 2 } else { 0 };
     match d.weighted(&[8, 5, w_named, w_nested]) {
         0 => {
+            if d.chance(8) {
+                // an unescaped dot inside brackets: everything except \n and \r in scnr
+                return ClassItem::Lit('.', LitForm::BareDot);
+            }
             let c = gen_char(d);
             let f = gen_form(d, c);
             ClassItem::Lit(c, f)
